@@ -44,7 +44,7 @@ def oracle(case, outcome, ctx):
 
 
 def run(shard, ctx):
-    workloads.run_remap_batch(shard, ctx, kinds=tuple(shard["kinds"]), oracle=oracle)
+    workloads.run_remap_batch(shard, ctx, kinds=tuple(shard["kinds"]), oracle=oracle, opts={"terminal_gaps": True})
 
 
 def replay(case, ctx):
@@ -74,5 +74,7 @@ def gates(c, tier):
         "label:in:consecutive-gaps": 50,
         "label:pv:subtexel-absent": 50,
         "label:pv:unpainted": 1000,
+        "label:in:trailing-gap": 100,
+        "label:in:leading-gap": 100,
     }
     return [f"{k}>={v} (got {c.get(k, 0)})" for k, v in need.items() if c.get(k, 0) < v]
